@@ -5,6 +5,7 @@ import (
 
 	"github.com/nspcc-dev/neofs-node/pkg/local_object_storage/blobstor/common"
 	"github.com/nspcc-dev/neofs-node/pkg/local_object_storage/shard/mode"
+	"github.com/nspcc-dev/neofs-node/pkg/util/verifhook"
 )
 
 // SetMode sets the metabase mode of operation.
@@ -12,6 +13,10 @@ import (
 func (db *DB) SetMode(m mode.Mode) error {
 	db.modeMtx.Lock()
 	defer db.modeMtx.Unlock()
+
+	if err := verifhook.Fault("metabase.setmode"); err != nil {
+		return err
+	}
 
 	if db.mode == m {
 		return nil
